@@ -375,3 +375,7 @@ func newServerOn(ctx context.Context, iface *net.Interface, c *SrvConf) (*server
 	libif.SetFakeAddr(iface, c.SelfIP)
 	return server.New(ctx, log.New(io.Discard, "", 0), iface, c.Proto())
 }
+
+func optRaw(code uint8, data []byte) dhcpmsg.DHCPOpt {
+	return dhcpmsg.DHCPOpt{Option: code, Data: data}
+}
